@@ -701,7 +701,7 @@ func solveWith(specs []solverSpec, query string, dir string, name string, timeou
 		}
 	}
 	best.All = allRes
-	if best.Status == "unsat" {
+	if best.Status == "unsat" && os.Getenv("GOVC_KEEP") == "" {
 		os.Remove(file)
 	}
 	return best
